@@ -10,3 +10,11 @@ add("C20", "translation_validation", "amd64 assembly interpreter + go/ssa -> SMT
     "feMul/feSquare from fe_amd64.s and feMulGeneric/feSquareGeneric produce identical limbs for every input within the invariant (incl. every aliasing pattern), each also meets the value/bounds contract; default and purego builds differ only in these two functions (file sets, hashes, SSA of all other functions compared).",
     "Trusted: my semantics of 9 amd64 mnemonics, go/packages build-tag resolution, z3. arm64 outside.",
     "DESIGN.md 5/C20")
+add("C07", OTHER, "SSA -> SMT: fiat-crypto kernels in Int-LF (Montgomery congruences via quotient atoms, exact-division rule, fork on cmov selector), exported methods in scalar ring mode, Invert by exponent arithmetic, Equal in bit-vectors",
+    "For all operands in [0,l): each fiat kernel meets its stated pre/postcondition (solver verdict, no sampling); Add/Subtract/Negate/Multiply/MultiplyAdd/Set executed from SSA on top of those contracts for every aliasing pattern; Invert's real loops give exponent l-2; Equal returns exactly 1/0 and decides equality.",
+    "Trusted: go/ssa, executor, Int-LF relaxation (sat replayed), z3; Montgomery map is a ring isomorphism of Z/l; Fermat for l.",
+    "DESIGN.md 5/C07")
+add("C08", OTHER, "SSA -> SMT: isReduced path-forked in bit-vectors against the 256-bit comparison; setters in scalar ring mode (Int-LF congruences mod l) with fiat contracts discharged in the same run; symbolic slice length for rejects",
+    "All 2^256 / 2^512 byte strings: SetCanonicalBytes accepts iff value < l (isReduced decided on each of its early-exit paths), SetUniformBytes = value mod l (21+21+22 split, constants 2^168, 2^336 checked), SetBytesWithClamping = RFC 8032 clamp mod l on a copy, Bytes = little-endian canonical value; every other length rejected atomically.",
+    "Trusted: go/ssa, executor, z3; fiat preconditions (input < l) are proved per call site.",
+    "DESIGN.md 5/C08")
